@@ -865,6 +865,126 @@ def check_get_info(ctx, n):
     return run(_getinfo_cases(ctx, cases))
 
 
+# ---------------------------------------------------------------------------------------------
+# api.amend(): sequences of calls from one step process (the history is step-side state)
+# ---------------------------------------------------------------------------------------------
+
+AMEND_FIXED = [
+    # (root, HERE = the step's working directory, field, requests in order)
+    ("/r/proj", "W", "inp", ["p", "W/p"]),               # the later spelling equals the recorded path of the first
+    ("/r/proj", "W", "out", ["p", "W/p"]),
+    ("/r/proj", "W", "vol", ["q.txt", "W/q.txt", "./q.txt"]),
+    ("/r/proj", "a/b", "inp", ["x", "a/b/x", "b/x"]),
+    ("/r/proj", "sub", "inp", ["../x", "x"]),            # recorded "x"; the later "x" is sub/x
+    ("/r/proj", "../shared", "out", ["../proj/o", "o"]),
+    ("/r/proj", ".", "inp", ["p", "./p", "d/../p"]),      # same file three times: sent once
+]
+
+
+class _AmendRecorder:
+    def __init__(self):
+        self.sent = {"inp": [], "out": [], "vol": []}
+
+    @property
+    def call(self):
+        return self
+
+    def amend_step(self, job_i, inp, env, out, vol, **kw):
+        for k, v in (("inp", inp), ("out", out), ("vol", vol)):
+            self.sent[k] += sorted(str(x) for x in v)
+        return True
+
+
+def run_amend_sequence(root, here, field, requests):
+    """The real api.amend() called once per request, in one process context (cwd = root/HERE), with a recording
+    RPC client; the file-system checks of amend() are switched off (they are not about path translation) and the
+    history is emptied before and after.  Returns the root-relative paths that reached the director, in order."""
+    from stepup.core import api
+    rec = _AmendRecorder()
+    saved = (api.get_rpc_client, api._check_no_directories, api._check_inp_paths)
+    hist = api._AMEND_HISTORY
+    backup = {k: set(v) for k, v in hist.items()}
+    saved_job = os.environ.get("STEPUP_JOB_I")
+    os.environ["STEPUP_JOB_I"] = "1"
+    try:
+        for v in hist.values():
+            v.clear()
+        api.get_rpc_client = lambda path=None: rec
+        api._check_no_directories = lambda paths: None
+        api._check_inp_paths = lambda paths: None
+        with patched(lex(root, here), root, here):
+            for r in requests:
+                api.amend(**{field: [r]})
+    finally:
+        api.get_rpc_client, api._check_no_directories, api._check_inp_paths = saved
+        for k, v in hist.items():
+            v.clear()
+            v.update(backup[k])
+        if saved_job is None:
+            os.environ.pop("STEPUP_JOB_I", None)
+        else:
+            os.environ["STEPUP_JOB_I"] = saved_job
+    return rec.sent[field]
+
+
+def check_amend_sequences(ctx, n, cases=None):
+    """Every path a step amends must reach the director as the root-relative path of the same file; a request is
+    dropped only when an earlier request of the same process designates the same file (then it is sent once)."""
+    rng = ctx.rng
+    found = {}
+    if cases is None:
+        cases = list(AMEND_FIXED)
+        for _ in range(n):
+            root = rand_root(rng)
+            here = rand_here(rng)
+            hn = posixpath.normpath(here)
+            p = rand_rel_path(rng)
+            if not p or p.endswith("/") or "\x00" in p + here:
+                continue
+            field = rng.choice(["inp", "out", "vol"])
+            kind = rng.random()
+            if kind < 0.45:
+                reqs = [p, posixpath.join(hn, p)]
+            elif kind < 0.65:
+                reqs = ["../" + p, p]
+            elif kind < 0.8:
+                reqs = [p, "./" + p, posixpath.join(hn, p)]
+            else:
+                reqs = [p, rand_rel_path(rng) or "z", p]
+            cases.append((root, here, field, [r for r in reqs if r and not r.endswith("/")]))
+    for root, here, field, reqs in cases:
+        wit = {"amend": {"root": root, "here": here, "field": field, "requests": reqs}}
+        try:
+            sent = run_amend_sequence(root, here, field, reqs)
+        except Exception as e:  # noqa: BLE001
+            if type(e).__name__ in ("PathError", "ValueError"):
+                ctx.count(f"amend:skipped:{type(e).__name__}")
+                continue
+            found.setdefault("oracle:amend:raises", (f"{type(e).__name__}: {e} for {wit}", wit))
+            continue
+        step_cwd = lex(root, here)
+        wanted = [lex(step_cwd, r) for r in reqs]
+        got = [lex(root, q) for q in sent]
+        ctx.case(("amend", root, here, field, tuple(reqs)), here not in (".", "./") and len(set(wanted)) > 1)
+        missing = [r for r, f in zip(reqs, wanted) if f not in got]
+        if missing:
+            found.setdefault(f"oracle:amend:{field}:request-never-reached-the-director",
+                             (f"step in {step_cwd!r} (root {root!r}) amended {field}={reqs} in this order; the director "
+                              f"received {sent}; {missing} (= {[lex(step_cwd, r) for r in missing]}) was dropped although no "
+                              f"earlier request designates that file", wit))
+        extra = [q for q, f in zip(sent, got) if f not in wanted]
+        if extra:
+            found.setdefault(f"oracle:amend:{field}:sent-path-designates-another-file",
+                             (f"amend {field}={reqs} in {step_cwd!r}: sent {extra}", wit))
+        if len(set(got)) != len(got):
+            # not demanded by the property: an absolute and a relative spelling of one file translate to two
+            # different recorded paths (absolute paths are stable under translate), so both are sent
+            ctx.count("amend:same-file-sent-under-two-spellings")
+        if any(posixpath.normpath(q) != q for q in sent):
+            found.setdefault(f"oracle:amend:{field}:sent-path-not-normalized", (f"amend {field}={reqs}: sent {sent}", wit))
+    return found
+
+
 CLI_CASES = [("sub", "here.txt"), ("sub", "./here.txt"), ("sub/deep", "../x/"), ("", "out.txt"), ("sub", "../top.txt"),
              ("sub", "d/e/"), ("sub/deep", "../../a/b.txt")]
 
@@ -956,6 +1076,8 @@ def oracle(ctx):
         ctx.add_failure("oracle", sig, sig, detail, witness=witness)
     for sig, (detail, witness) in sorted(check_get_info(ctx, ctx.scale(150, 1500)).items()):
         ctx.add_failure("oracle", sig, sig, detail, witness=witness)
+    for sig, (detail, witness) in sorted(check_amend_sequences(ctx, ctx.scale(400, 5000)).items()):
+        ctx.add_failure("oracle", sig, sig, detail, witness=witness)
     for sig, (detail, witness) in sorted(check_targets(ctx, ctx.scale(400, 5000)).items()):
         ctx.add_failure("oracle", sig, sig, detail, witness=witness)
     found = run_oracle(ctx, ctx.scale(1500, 20000))
@@ -986,6 +1108,7 @@ def search(ctx):
     found.update(check_targets(ctx, 4000))
     found.update(check_cli_call_site(ctx))
     found.update(check_get_info(ctx, 1500))
+    found.update(check_amend_sequences(ctx, 4000))
     for sig, (detail, witness) in sorted(found.items()):
         ctx.add_failure("oracle", sig, sig + ":search", detail, witness=witness)
 
@@ -994,7 +1117,12 @@ def replay(ctx, obj):
     w = obj["failure"].get("witness") or {}
     ensure_facts(ctx, "replay")
     print("replaying", w)
-    if "get_info" in w:
+    if "amend" in w:
+        a = w["amend"]
+        print("sent:", run_amend_sequence(a["root"], a["here"], a["field"], a["requests"]))
+        for sig, (detail, witness) in sorted(check_amend_sequences(ctx, 0, [(a["root"], a["here"], a["field"], a["requests"])]).items()):
+            ctx.add_failure("oracle", sig, sig, detail, witness=witness)
+    elif "get_info" in w:
         from .wfutil import run
         g = w["get_info"]
         for sig, (detail, witness) in sorted(run(_getinfo_cases(ctx, [(g["root"], g["here"], g["workdir"], g["inp"], g["out"])])).items()):
